@@ -192,7 +192,7 @@ CLAIMED = {
               "flags x MSbar x 13 labels), real quad_ker_ad/qcd/qed/ome, ekore dispatchers, kernel dispatchers, scale-variation functions and build_ome executed with opaque non-zero leaves: "
               "(a) every configuration returns or raises NotImplementedError/ValueError with a message -- no unrelated exception; (b) definite assignment: a dispatcher that returns has filled "
               "every pure-QCD slot below the requested order (nf 3-6, all sectors, three variants; one defect repaired by a fix commit: time-like N3LO was silently zero); "
-              "(c) the documented refusals happen."),
+              "(c) the documented refusals happen. (e) parts.match for every heavy quark, direction, scheme and with heavier quarks switched off: no unrelated exception, nf = hq - 1, finite logarithm of this quark's matching ratio."),
         note=COMMON_NOTE + "Finiteness of floats, the runner above the kernels, and Couplings / MSbar numerics are not covered. Couplings and scales are concrete rationals in this check (the outcome class does not depend on them).",
         technique="contract-based deductive verification: exhaustive enumeration of the finite configuration space with symbolic execution of the real dispatch code over opaque callee contracts",
         design_ref="DESIGN.md section 2, C04",
